@@ -288,12 +288,14 @@ class Fitter:
             slice.content.size - slice.open_end
         )
 
+        last_placed = None
         while taken < fragment.child_count:
             next_ = fragment.child(taken)
             matches = match.match_type(next_.type)
             if not matches:
                 break
             taken += 1
+            last_placed = None
             if taken > 1 or open_start == 0 or next_.content.size:
                 match = matches
                 add.append(
@@ -303,6 +305,7 @@ class Fitter:
                         open_end_count if taken == fragment.child_count else -1,
                     ),
                 )
+                last_placed = add[-1]
 
         to_end = taken == fragment.child_count
         if not to_end:
@@ -325,8 +328,9 @@ class Fitter:
             self.close_frontier_node()
 
         cur = fragment
-        for _ in range(open_end_count):
-            node = cur.last_child
+        for i in range(open_end_count):
+            # the node as it was placed: close_node_start may have filled in required content at its start
+            node = last_placed if i == 0 and last_placed is not None else cur.last_child
             assert node is not None
             self.frontier.append(
                 _FrontierItem(node.type, node.content_match_at(node.child_count)),
